@@ -2,6 +2,7 @@ import TeaTasting.Driver.Proto
 import TeaTasting.Driver.Stubs
 import TeaTasting.Gen.Aggr
 import TeaTasting.Gen.Mean
+import TeaTasting.Gen.Proportion
 
 /-! Driver for the GENERATED model (`Gen/*.lean`) at `ℚ`:  `lake env lean --run DriverGen.lean`. -/
 
@@ -47,6 +48,13 @@ def handler (cmd : String) : P String := do
     let n ← rat
     let e ← rat
     pure (showRat (RatioOfMeans.power_from_stats (Stubs.family fam) c v n e))
+  | "sr" =>
+    let fam ← nat
+    let c ← srcfg
+    let cc ← rat
+    let ct ← rat
+    let r := SampleRatio.analyze (Stubs.family fam) Stubs.binomStub c cc ct
+    pure (showRats [r.control, r.treatment, r.pvalue])
   | _ => throw s!"unknown command {cmd}"
 
 def main : IO Unit := do loop handler (← IO.getStdin)
